@@ -4,7 +4,7 @@ import glob, json, os, re
 HERE = os.path.dirname(os.path.abspath(__file__))
 metas = [json.load(open(f)) for f in sorted(glob.glob(os.path.join(HERE, "seeded", "*", "meta.json")))]
 out = []
-for rnd in (2, 3, 4):
+for rnd in (2, 3, 4, 5):
     ms = [m for m in metas if m.get("round") == rnd]
     missed = [m for m in ms if m.get("first_result") == "missed"]
     out.append(f"**Round {rnd}** — {len(ms)} changes, {len(ms) - len(missed)} caught by the checks as they stood, {len(missed)} missed at first; "
@@ -24,4 +24,4 @@ a, b = "<!-- seeded-rounds-2-3:begin -->", "<!-- seeded-rounds-2-3:end -->"
 assert a in s and b in s
 s = s[:s.index(a) + len(a)] + "\n" + text + s[s.index(b):]
 open(p, "w").write(s)
-print("DESIGN.md tables regenerated:", sum(1 for m in metas if m.get("round") in (2, 3, 4)), "changes")
+print("DESIGN.md tables regenerated:", sum(1 for m in metas if m.get("round") in (2, 3, 4, 5)), "changes")
